@@ -707,8 +707,12 @@ class Parser:
             return value
         if not self._current_token.is_a(TokenTypes.NAME):
             return None
-        macro = self._context.get_macro(str(self._current_token))
-        return None if macro.undefined else macro.value
+        # Through get_symbol(): inside a routine, a parameter or variable
+        # hides a constant of the same name.
+        symbol = self._context.get_symbol(str(self._current_token))
+        if symbol.undefined or symbol.symbol_type is not SymbolType.MACRO:
+            return None
+        return symbol.value
 
     def _current_int(self):
         value = self._current_constant()
